@@ -181,3 +181,19 @@ def c03_5(ctx, r):
     from .c05 import poll_before_collect
 
     poll_before_collect(ctx, r, "C03.5")
+
+
+@rule(P, "C03.6", "T10", "cancel exactness: both cancel sites decide by the same predicate over a failed set of non-zero return codes, with feedback", min_obligations=6)
+def c03_6(ctx, r):
+    from .c04 import c04_2, c04_4
+
+    c04_2(ctx, r)
+    c04_4(ctx, r)
+
+
+@rule(P, "C03.7", "T7+T2", "collection is atomic against the runners: a node file is moved under its own lock, append before delete", min_obligations=6)
+def c03_7(ctx, r):
+    from .c08 import c08_1b, c08_3
+
+    c08_1b(ctx, r)
+    c08_3(ctx, r)
